@@ -1,4 +1,4 @@
-\* Thorough tier, part 1: two transactions, two pending entries, every scan order.
+\* Quick tier, part 3: the log hand-over is not atomic - heads are published, polled and scanned between LogReceived and PendingStored.
 SPECIFICATION MCSpec
 CONSTANTS
   Nil = Nil
@@ -11,12 +11,12 @@ CONSTANTS
   ArmKinds = {"hreceipt"}
   RemineStatus = {1}
   MidScanHeads = FALSE
-  HeldIntake = FALSE
+  HeldIntake = TRUE
   MaxHeads = 3
-  MaxMine = 2
+  MaxMine = 1
   MaxPush = 2
-  MaxReorg = 1
-  MaxRemine = 1
+  MaxReorg = 0
+  MaxRemine = 0
   MaxDrop = 0
   MaxFail = 0
   MaxArm = 1
